@@ -97,6 +97,9 @@ Verdict(d) == IF ~BaseOK(d) \/ ~Valid(d) THEN "reject"
 Readable(f) == f.access \in {"r", "rw"}
 Writable(f) == f.access \in {"w", "rw"}
 
+(* C19: the `debug` option applies to bitfields whose fields are all readable and not arrays; others do not compile with it *)
+DebugApplies(d) == \A j \in 1..Len(d.fields) : Readable(d.fields[j]) /\ d.fields[j].array = <<>>
+
 (* name mangling: with_/set_ drop a leading r# *)
 StripRaw(nm) == nm     \* names in this model never carry r#; the harness covers r# idents textually
 
